@@ -137,6 +137,11 @@ func init() {
 	Properties = append(Properties, &PropertySpec{
 		ID: "C12",
 		Harnesses: []HarnessSpec{
+			// the task queue keeps any address (up to 2^40) unchanged: positions in
+			// a large core are not treated differently from those in a small one
+			{Name: "C02_fifo", Expect: []string{"end", "pop-is-first-in-first-out"}, Witnesses: 4,
+				Quick:    grid([]string{"P"}, []int{1, 2, 3}),
+				Thorough: grid([]string{"P"}, seq(1, 4))},
 			{Name: "C12_step", Expect: []string{"end", "rotated-core-equal"}, Witnesses: 1,
 				Quick:    rotCases([][2]int{{3, 1}, {4, 2}, {5, 2}}),
 				Thorough: rotCases([][2]int{{3, 1}, {3, 2}, {4, 2}, {5, 2}, {5, 3}, {6, 2}, {7, 2}, {8, 3}, {9, 2}, {11, 2}, {13, 2}})},
@@ -181,6 +186,12 @@ func init() {
 			{Name: "C02_queue", Expect: []string{"end", "push-appends-at-back"},
 				Quick:    grid([]string{"P"}, []int{1, 2, 3, 4}),
 				Thorough: grid([]string{"P"}, seq(1, 8))},
+			{Name: "C02_fifo", Expect: []string{"end", "pop-is-first-in-first-out"}, Witnesses: 4,
+				Quick:    grid([]string{"P"}, []int{1, 2, 3, 4}),
+				Thorough: grid([]string{"P"}, seq(1, 6))},
+			{Name: "C02_load", Expect: []string{"end", "one-task-at-the-entry-point"}, Witnesses: 4,
+				Quick:    grid([]string{"M", "len"}, []int{3, 5, 8}, []int{1, 2, 3}),
+				Thorough: grid([]string{"M", "len"}, []int{3, 4, 5, 8, 13, 16}, []int{1, 2, 3})},
 			{Name: "C02_split", Expect: []string{"end", "fallthrough-first"},
 				Quick:    grid([]string{"M", "P"}, []int{3, 5, 8}, []int{1, 2, 3}),
 				Thorough: grid([]string{"M", "P"}, []int{3, 4, 5, 8, 13, 16}, []int{1, 2, 3, 4})},
@@ -211,6 +222,9 @@ func init() {
 				Quick:    []Params{{"M": 3, "P": 1, "L": 2, "maxCycles": 2}, {"M": 3, "P": 2, "L": 2, "maxCycles": 1}, {"M": 3, "P": 2, "L": 1, "maxCycles": 2, "prefix": 1}},
 				Thorough: []Params{{"M": 3, "P": 1, "L": 2, "maxCycles": 2}, {"M": 3, "P": 2, "L": 2, "maxCycles": 1}, {"M": 3, "P": 2, "L": 1, "maxCycles": 2, "prefix": 1},
 					{"M": 4, "P": 2, "L": 2, "maxCycles": 2}, {"M": 4, "P": 1, "L": 2, "maxCycles": 3}, {"M": 3, "P": 1, "L": 1, "maxCycles": 2, "prefix": 2}, {"M": 4, "P": 2, "L": 1, "maxCycles": 2, "prefix": 1}}},
+			{Name: "C13_respawn", Expect: []string{"started", "refused"}, Witnesses: 4,
+				Quick:    grid([]string{"M", "P", "n"}, []int{3}, []int{1, 2}, []int{1, 2}),
+				Thorough: grid([]string{"M", "P", "n"}, []int{3, 4, 5}, []int{1, 2}, []int{1, 2, 3})},
 			{Name: "C13_inapplicable", Expect: []string{"end"}, TerminationClaim: true, Witnesses: 2,
 				Quick:    grid([]string{"M", "P", "n", "maxCycles", "run"}, []int{3}, []int{1, 2}, []int{0, 1, 2}, []int{2}, []int{0, 1}),
 				Thorough: grid([]string{"M", "P", "n", "maxCycles", "run"}, []int{3, 4}, []int{1, 2}, []int{0, 1, 2, 3}, []int{1, 3}, []int{0, 1})},
@@ -295,6 +309,7 @@ func init() {
 			{Name: "C05_lexer", Expect: []string{"end"}, TerminationClaim: true, Witnesses: 8,
 				Quick:    grid([]string{"Nb"}, []int{0, 1, 2}),
 				Thorough: grid([]string{"Nb"}, []int{0, 1, 2, 3})},
+			{Name: "C05_equ3", Expect: []string{"end", "accepted", "rejected"}, TerminationClaim: true, Witnesses: 4},
 			{Name: "C05_soup", Expect: []string{"end"}, TerminationClaim: true, Witnesses: 8,
 				Quick:    grid([]string{"N", "final"}, []int{1, 2}, []int{0, 1}),
 				Thorough: grid([]string{"N", "final"}, []int{1, 2, 3}, []int{0, 1})},
